@@ -1,11 +1,12 @@
 import Driver.Proto
 import Driver.WW
+import Driver.Sim
 open Lean
 
 namespace Driver
 
 def allHandlers : List (String × Handler) :=
-  Driver.WW.handlers
+  Driver.WW.handlers ++ Driver.Sim.handlers
 
 def dispatch (line : String) : String :=
   match Json.parse line with
